@@ -424,7 +424,13 @@ class NetworkService(ModelElement):
         """
         assert(isinstance(ns, NetworkService))
         self_iface = self.add_interface(name=self.name + '-' + ns.name, itype=InterfaceType.ServicePort, **kwargs)
-        other_iface = ns.add_interface(name=ns.name + '-' + self.name, itype=InterfaceType.ServicePort)
+        try:
+            other_iface = ns.add_interface(name=ns.name + '-' + self.name, itype=InterfaceType.ServicePort)
+        except Exception:
+            # do not leave a half-made peering behind
+            self.topo.graph_model.remove_cp_and_links(node_id=self_iface.node_id)
+            self._interfaces = list(filter((lambda x: x.node_id != self_iface.node_id), self._interfaces))
+            raise
         # link them together with L2Path
         peer_link = Link(name=self_iface.name + '-link', topo=self.topo, etype=ElementType.NEW,
                          interfaces=[self_iface, other_iface], ltype=LinkType.L2Path)
